@@ -128,6 +128,27 @@ CHECKS = {
         design_ref="DESIGN.md section 7, C15",
         note="Exhaustive over the stated family (quick: 27 exponents, thorough: all 63). Open finding (MIN lower bound) is modelled exactly.",
         technique="TLA+ type-selection model enumerated by TLC, compared with the real generator output"),
+    "C07": dict(
+        category="model_checking",
+        text="Grammar.tla defines the abstract syntax of the supported subset, a bounded generator of definitions (every constructor x every "
+             "constraint form x tags of the four classes x OPTIONAL/DEFAULT with literals x marker positions x nesting; 3 000 definitions) "
+             "and Canon, the canonical projection a faithful parser must deliver (X.680 equivalences applied). TLC enumerates the universe "
+             "and checks well-formedness; every definition is printed to ASN.1 text, parsed and resolved by the real front end, and a "
+             "canonical JSON projection of the model's public fields must equal Canon - order, names, kinds, ranges, named numbers, sizes "
+             "with extensibility, tags with class, OPTIONAL/DEFAULT and literals, marker positions; plus module-level forms (OIDs, IMPORTS, "
+             "value references).",
+        design_ref="DESIGN.md section 7, C07",
+        note="One spelling per AST node (layout variation is C13); the projection code in harness/src/canon.rs is trusted.",
+        technique="TLA+ abstract-syntax universe with canonical projection, TLC-enumerated, compared with the real parser's model"),
+    "C08": dict(
+        category="model_checking",
+        text="The same TLC-enumerated universe plus the repository's own test modules go through the real generator and attribute parser at run "
+             "time: the re-parsed Rust model must equal the generator's model per definition (modulo the derived tag of an untagged CHOICE), "
+             "and the constants in the macro expansion (MIN/MAX/EXTENSIBLE of every constrained position incl. nested lists, DEFAULT values, "
+             "STD_OPTIONAL_FIELDS/FIELD_COUNT/EXTENDED_AFTER_FIELD, VARIANT counts) must equal Grammar!Consts computed from the SOURCE syntax.",
+        design_ref="DESIGN.md section 7, C08",
+        note="Model equality is Debug-text equality; open findings are delimited exactly (only the named field may differ).",
+        technique="TLC-enumerated universe through the real codegen/attribute-parser round trip; constants compared with a TLA+ operator"),
 }
 
 NOT_APPLICABLE = {}
